@@ -108,6 +108,30 @@ KNOWN_KEYS = {
 }
 
 
+def sib_union_sx(u: dict) -> tuple[str, str]:
+    """a combination with validation keywords NEXT TO `anyOf` / `oneOf` → (`(bounds …)` of the sibling keywords, the
+    combination of the members as written). The modelled shape (Dcg/Model/Siblings.lean): inline scalar members
+    `{"type": T, own keywords}`, `{"type": "null"}` and local `$ref` members. Lean merges the keywords into the
+    members (`distribute` / `trSib`); nothing is merged here."""
+    key = "anyOf" if "anyOf" in u else "oneOf"
+    sib = {k: v for k, v in u.items() if k not in (key, "title")}
+    if not sib or set(sib) - {"minimum", "maximum", "exclusiveMinimum", "exclusiveMaximum", "multipleOf", "minLength", "maxLength", "pattern"}:
+        raise Unmodelled("sibling keywords outside the scalar constraint keywords")
+    if any(isinstance(v, bool) for v in sib.values()):
+        raise Unmodelled("draft-4 flags next to a combination")
+    parts = []
+    for m in u[key]:
+        if not isinstance(m, dict):
+            raise Unmodelled("boolean member")
+        if "$ref" in m or m.get("type") == "null" and set(m) == {"type"}:
+            parts.append(schema_sx(m))
+        elif m.get("type") in SCALARS and not (set(m) - {"type", "minimum", "maximum", "exclusiveMinimum", "exclusiveMaximum", "multipleOf", "minLength", "maxLength", "pattern"}):
+            parts.append(schema_sx(m))
+        else:
+            raise Unmodelled("member of a combination with sibling keywords outside the modelled shape")
+    return bounds_sx(sib), f"({key} {' '.join(parts)})"
+
+
 def schema_sx(s: Any, top: bool = False) -> str:
     """S-expression of the Lean `Schema` for JSON-Schema node `s`; raises Unmodelled outside the subset.
     `top`: the node is a whole document / definition (an object without properties is then an empty
